@@ -1,2 +1,13 @@
-(* C16 placeholder: statements follow with Model/StackProto.v *)
-From RT Require Import Model.StackTrace.
+(* C16 -- operations leave no residue.  Statements only.
+   Proved: in every reachable world a handle that is not inside a call owns no
+   lock file and no temporary file (whatever happened: failed Adds, rejected
+   transactions, compactions that lost lock races, crashes of others). *)
+From Coq Require Import List NArith Arith Bool.
+From RT Require Import Model.StackTrace Model.StackProto Proofs.LockProofs.
+Import ListNotations.
+
+Theorem C16_idle_owns_nothing : forall size_oracle attempts tabs scripts sched w evs h hd,
+  run size_oracle attempts (init_world tabs scripts) sched = (w, evs) ->
+  nth_error (w_handles w) h = Some hd -> h_pc hd = HIdle -> owns_nothing (w_fs w) h.
+Proof. exact idle_owns_nothing. Qed.
+Print Assumptions C16_idle_owns_nothing.
